@@ -530,6 +530,9 @@ func runC19(p *Prog, r *Report) {
 		}
 		r.End()
 	}
+	if want("C19.11") {
+		ruleFileNameTables(p, r, "C19.11")
+	}
 	if want("C19.10") {
 		ruleFileEntryPoints(p, r, "C19.10")
 	}
